@@ -3,7 +3,7 @@
 (* client queues and flushes packages on a channel.  Nothing here says *how* the library           *)
 (* packetises (hold the last full packet back, or terminate with an empty EOM packet - both are     *)
 (* accepted); it only states the C01 contract on the packets observed.                              *)
-(*   ps      packet size in force (as reported by Conn.PacketSize() after the peer's ENVCHANGE)     *)
+(*   ps      packet size in force: the size the peer announced by ENVCHANGE(PACKSIZE)                *)
 (*   chan, nr  channel id and next packet number (channels > 0)                                      *)
 (*   queued  bytes queued in the current message (harness input)                                     *)
 (*   wired   body bytes seen on the transport in the current message                                 *)
@@ -15,6 +15,13 @@ EXTENDS TraceBase
 
 VARIABLES l, ps, chan, nr, queued, wired, closed, phase, typ, judged, cancelled, failing
 vars == <<l, ps, chan, nr, queued, wired, closed, phase, typ, judged, cancelled, failing>>
+
+\* The property under judgement (environment variable JUDGE): C01 judges the packet sequence, C13 the
+\* sends with a cancelled context, C14 the calls that run into a failing transport.
+Judge == IF "JUDGE" \in DOMAIN IOEnv THEN IOEnv.JUDGE ELSE "ALL"
+J01 == Judge \in {"C01", "ALL"}
+J13 == Judge \in {"C13", "ALL"}
+J14 == Judge \in {"C14", "ALL"}
 
 E == Trace[l]
 IsEvent(e) == l <= Len(Trace) /\ Trace[l].ev = e /\ l' = l + 1
@@ -29,7 +36,9 @@ T_Chan == /\ IsEvent("Chan") /\ chan' = E.id /\ ps' = E.ps /\ typ' = E.typ /\ nr
           /\ UNCHANGED <<queued, wired, closed, phase, judged, cancelled, failing>>
 \* the peer renegotiated the packet size between two messages
 T_PacketSize == /\ IsEvent("PacketSize") /\ phase = "idle" /\ queued = 0
-                /\ ps' = E.applied
+                \* inside the range a server may negotiate the size in force is the announced one; outside
+                \* of it (the tiny sizes of the model's scope) it is what the connection reports
+                /\ ps' = IF E.ps >= 256 /\ E.ps <= 65535 THEN E.ps ELSE E.applied
                 /\ UNCHANGED <<chan, nr, queued, wired, closed, phase, typ, judged, cancelled, failing>>
 T_SetType == /\ IsEvent("SetType") /\ phase = "idle"
              /\ UNCHANGED <<ps, chan, nr, queued, wired, closed, phase, typ, judged, cancelled, failing>>
@@ -53,12 +62,12 @@ T_Send == /\ IsEvent("Send") /\ phase = "idle"
 \* one packet observed on the transport
 T_Wire ==
     /\ IsEvent("Wire") /\ phase \in {"queue", "flush"}
-    /\ ~cancelled                                    \* C13: a send with a cancelled context writes nothing
+    /\ (J13 => ~cancelled)                           \* C13: a send with a cancelled context writes nothing
     /\ E.hlen = 8 + E.n                              \* header length = real size
-    /\ E.chan = chan
-    /\ (chan > 0 => E.nr = nr)                       \* consecutive packet numbers on logical channels
+    /\ (J01 => E.chan = chan)
+    /\ (J01 /\ chan > 0 => E.nr = nr)                \* consecutive packet numbers on logical channels
     /\ nr' = IF chan > 0 THEN (nr + 1) % 256 ELSE nr
-    /\ IF judged
+    /\ IF judged /\ J01
        THEN /\ E.hlen <= ps                          \* never exceeds the packet size in force
             /\ E.typ = typ                           \* the channel's current message type
             /\ ~closed                               \* nothing follows the EOM packet
@@ -79,7 +88,7 @@ T_WireGarbage == /\ IsEvent("WireGarbage") /\ failing
                  /\ UNCHANGED <<ps, chan, nr, queued, wired, closed, phase, typ, judged, cancelled, failing>>
 T_QueueEnd ==
     /\ IsEvent("QueueEnd") /\ phase = "queue" /\ phase' = "idle"
-    /\ (~cancelled /\ ~failing => E.st = "ok")      \* packages that encode are queued without error
+    /\ (J01 /\ ~cancelled /\ ~failing => E.st = "ok")      \* packages that encode are queued without error
     /\ E.st # "panic"
     /\ judged' = (judged /\ E.st = "ok")
     /\ cancelled' = FALSE
@@ -87,10 +96,13 @@ T_QueueEnd ==
 
 T_FlushEnd ==
     /\ IsEvent("FlushEnd") /\ phase = "flush" /\ phase' = "idle"
-    /\ (judged /\ ~cancelled) => /\ E.st = "ok"
+    /\ (J01 /\ judged /\ ~cancelled) => /\ E.st = "ok"
                                  /\ wired = queued              \* nothing lost, nothing left behind
                                  /\ (queued > 0 => closed)      \* the message was terminated by EOM
-    /\ (failing => E.st \in {"err", "ok"})      \* never a panic; "ok" only if the failure point was not reached
+    \* a flush with a cancelled context writes nothing (T_Wire); it may report success only when
+    \* nothing was left to send
+    /\ (J13 /\ judged /\ cancelled /\ E.st = "ok") => (wired = queued /\ (queued > 0 => closed))
+    /\ (J14 /\ failing => E.st \in {"err", "ok"})      \* never a panic; "ok" only if the failure point was not reached
     /\ queued' = 0 /\ wired' = 0 /\ closed' = FALSE /\ judged' = TRUE /\ cancelled' = FALSE /\ failing' = FALSE
     /\ UNCHANGED <<ps, chan, nr, typ>>
 
